@@ -286,12 +286,25 @@ fn dispatch(script: &Value) -> Value {
                 12 => add!(S12), 13 => add!(S13), 14 => add!(S14), _ => add!(S15),
             }
         }
-        let mut d = b.build();
-        d.setup(&mut world);
-        for round in 0..rounds {
-            sh.round.store(round, Ordering::SeqCst);
-            d.dispatch(&world);
-            world.maintain();
+        if script["async"].as_bool().unwrap_or(false) {
+            // AsyncDispatcher: owns the world, dispatches on the pool, wait() joins
+            let w = std::mem::replace(&mut world, World::new());
+            let mut d = b.build_async(w);
+            d.setup();
+            for round in 0..rounds {
+                sh.round.store(round, Ordering::SeqCst);
+                d.dispatch();
+                d.wait();
+                d.world_mut().maintain();
+            }
+        } else {
+            let mut d = b.build();
+            d.setup(&mut world);
+            for round in 0..rounds {
+                sh.round.store(round, Ordering::SeqCst);
+                d.dispatch(&world);
+                world.maintain();
+            }
         }
     });
     let log: Vec<Value> = sh.log.lock().unwrap().iter().map(|(s, e, x, r)| json!({"sys": s, "enter": e, "exit": x, "round": r})).collect();
